@@ -1191,12 +1191,20 @@ func TestCheck(t *testing.T) {
 	b := tierBounds()
 	// VERIF_C20_ONLY=<scenario> (debugging aid): run one scenario only
 	want := func(name string) bool { o := os.Getenv("VERIF_C20_ONLY"); return o == "" || o == name }
-	// cheap scenarios first so that a deadline can only cut the big string spaces
+	// Order: the scenarios every tier shares first, the thorough-only
+	// extensions last, so that a deadline on an overloaded machine cuts the
+	// extensions (reported as exhaustive=false) and never the core.
 	if want("less-pairs") {
 		scenPairs(rn, pool)
 	}
 	if want("encodings") {
 		scenEncodings(rn, pool)
+	}
+	if want("hash-hex") {
+		scenHashHex(rn, "hash-hex", b.hexSyms, b.hexVar)
+	}
+	if want("short-strings") {
+		scenShortStrings(rn, "short-strings", b.alphaA, b.lenA)
 	}
 	if want("digests") {
 		scenDigests(rn, b.bytesN)
@@ -1204,17 +1212,11 @@ func TestCheck(t *testing.T) {
 	if want("prefix-mutations") {
 		scenPrefix(rn, pool, b.deep)
 	}
-	if want("hash-hex") {
-		scenHashHex(rn, "hash-hex", b.hexSyms, b.hexVar)
-	}
-	if b.hexSym2 != nil && want("hash-hex-wide") {
-		scenHashHex(rn, "hash-hex-wide", b.hexSym2, 5)
-	}
 	if want("short-strings-wide") {
 		scenShortStrings(rn, "short-strings-wide", b.alphaB, b.lenB)
 	}
-	if want("short-strings") {
-		scenShortStrings(rn, "short-strings", b.alphaA, b.lenA)
+	if b.hexSym2 != nil && want("hash-hex-wide") {
+		scenHashHex(rn, "hash-hex-wide", b.hexSym2, 5)
 	}
 	if b.alphaC != nil && want("short-strings-deep") {
 		scenShortStrings(rn, "short-strings-deep", b.alphaC, b.lenC)
